@@ -416,6 +416,26 @@ def run_shard(ctx):
                                   {"out": str(frame)[:160], "expected_text": "".join(c for c, _ in fmodel2) * 2}, case)
             except sgr.SgrError as err:
                 ctx.violation("malformed-or-bleeding-sequence", {"err": str(err), "self_append": True}, case)
+        if len(chunks) <= 5 and model:
+            # a piece of the text cut with a stop far behind its end, then used like any text: its last character, the
+            # piece in a field; and the whole text taken as a slice and extended - the text itself shows what it showed
+            try:
+                k = rng.randrange(len(model))
+                piece = res[k:len(model) + rng.choice([1, 5, 100])]
+                pmodel = model[k:]
+                last = piece[-1:]
+                field = format(piece, ">%d" % (len(pmodel) + 3))
+                ctx.count("slices_with_a_stop_behind_the_end_used_again")
+                if sgr.cells(str(last)) != pmodel[-1:] or len(piece) != len(pmodel) or \
+                        sgr.cells(field) != [(" ", sgr.DEFAULT)] * 3 + pmodel:
+                    ctx.violation("piece-of-a-text-shows-something-else-when-it-is-used-again",
+                                  {"piece": str(piece)[:80], "last": str(last)[:40], "field": field[:80], "len": len(piece)}, case)
+                whole = res[:] if i % 2 else res[:len(model) + 7]
+                whole += chunks[0][0]
+                if sgr.cells(str(res)) != model or len(res) != len(model):
+                    ctx.violation("text-changed-when-a-slice-of-it-was-extended", {"out": str(res)[:120]}, case)
+            except sgr.SgrError as err:
+                ctx.violation("malformed-or-bleeding-sequence", {"err": str(err), "slice": True}, case)
         if i < 30 and len(ctx.samples) < 2:
             ctx.sample({"parts": parts, "rendered": str(res)})
 
